@@ -252,7 +252,7 @@ def _w_other(args):
             R = O.reach(G, start)
             fast_ok = coder.no_deg3(G, R)
             check_class(r, k, G, start, 1, 2, fast_ok, quick=True, brute=(4 if quick else 5) if k == 2 and len(O.has_arcs(G)) <= 4 else 0)
-            edits_class(r, k, G, start, 3 if quick else 5, fast_ok)
+            edits_class(r, k, G, start, 3 if (quick or sum(1 for row in G for x in row if x >= 0) > 16) else 4, fast_ok)
             r.ctr['classes'] += 1
     return r
 
@@ -281,7 +281,7 @@ def run(ctx):
                                % ((1, 1) if ctx.quick else (2, 2)),
                   'brute_force': 'all strings over ACGTN of length <= %d on classes with <= 2 reachable vertices' % (4 if ctx.quick else 5),
                   'bit_lengths': '0, 1, needed, needed+3', 'checks': 'absent, correct, wrong, check of a single-edit neighbour',
-                  'edits': 'all single edits of all walks of length <= %d on the order-2 binary-embedding and deletion graphs' % (3 if ctx.quick else 5)}
+                  'edits': 'all single edits of all walks of length <= %s on the order-2 binary-embedding and deletion graphs' % ('3' if ctx.quick else '4 (3 on graphs with more than 16 arcs)')}
     ctx.rule = ('one case = (graph class, start, string, bit length, check, mode): the real decode returns an array of exactly the '
                 'requested length iff the string is a walk (and the check matches), else raises ValueError and nothing else; the '
                 'strings cover every transition of the walk automaton of every class; states = distinct strings per class; '
